@@ -138,6 +138,8 @@ pub struct Lockstep {
     /// C03 judging can be disabled (e.g. after a restart boundary, where
     /// "previous read list" is still defined, or after cancellation)
     pub judge_on: bool,
+    /// (node, wrong value, reader) handed to executors in the current epoch
+    pub stale_seen: Vec<(Key, Val, (Key, Option<Vec<Dep>>))>,
 }
 
 impl Lockstep {
@@ -147,6 +149,7 @@ impl Lockstep {
             r: Ref::default(),
             judge: Judge::default(),
             findings: Vec::new(),
+            stale_seen: Vec::new(),
             step: 0,
             fstep: 0,
             activations: 0,
@@ -176,6 +179,34 @@ impl Lockstep {
         got: Val,
         reader: Option<(Key, Option<Vec<Dep>>)>,
     ) {
+        // A wrong value handed to the USER for a node that an executor was
+        // already handed the same wrong value for, earlier in this epoch, is
+        // the same stale verification seen again (the node was stamped
+        // verified by then): it is classified like the executor-level read.
+        let (what, reader) = match reader {
+            Some(r) => {
+                self.stale_seen.push((key, got, r.clone()));
+                (what, Some(r))
+            }
+            None => {
+                // ... or for a node in the cone below such a node: verifying
+                // the upper node "clean" stamped its whole cone as verified
+                let p = self.p.clone();
+                match self
+                    .stale_seen
+                    .iter()
+                    .find(|(k, g, _)| (*k == key && *g == got) || below(&p, *k).contains(&key))
+                {
+                    Some((k, _, r)) => (
+                        format!(
+                            "{what} (stale verification already observed in this epoch when an executor was handed {k:?})"
+                        ),
+                        Some(r.clone()),
+                    ),
+                    None => (what, None),
+                }
+            }
+        };
         self.findings.push(Finding {
             property: "C01",
             step: self.step,
@@ -214,6 +245,7 @@ impl Lockstep {
         let mut prev_at_enter: HashMap<usize, Option<Vec<Dep>>> = HashMap::new();
         for e in events {
             match e {
+                Event::Req { .. } | Event::FirstUnwind { .. } => {}
                 Event::Enter { key, act, .. } => {
                     self.activations += 1;
                     self.act_log.push((self.fstep, *key));
@@ -334,7 +366,10 @@ impl Lockstep {
         }
     }
 
-    pub fn session_boundary(&mut self) { self.judge.since_session.clear(); }
+    pub fn session_boundary(&mut self) {
+        self.judge.since_session.clear();
+        self.stale_seen.clear();
+    }
 }
 
 /// Apply one session op to a live engine + the lock-step model.
@@ -721,6 +756,10 @@ pub fn alphabet(p: &Program, rich: bool) -> Vec<Op> {
     if let Some(&i) = ins.first() {
         ops.push(Op::Session { writes: vec![W::Set(i, 1)], commit: false });
         ops.push(Op::Session { writes: vec![W::Upd(i, 1)], commit: true });
+        // the same input assigned twice in one session (the last write wins,
+        // in memory and in the store)
+        ops.push(Op::Session { writes: vec![W::Set(i, 1), W::Set(i, 2)], commit: true });
+        ops.push(Op::Session { writes: vec![W::Set(i, 2), W::Upd(i, 1)], commit: true });
         if rich {
             // change and change back inside one session
             ops.push(Op::Session {
@@ -880,7 +919,14 @@ impl Search {
             .collect();
         let bad = !new_findings.is_empty();
         for f in new_findings {
-            if self.findings.len() < 200 {
+            // at most 20 cases per (key, value, reader) class, so that a
+            // frequent (known) failure cannot crowd out a rare one
+            let same = self
+                .findings
+                .iter()
+                .filter(|c| c.finding.key == f.key && c.finding.got == f.got && c.finding.reader == f.reader)
+                .count();
+            if same < 20 && self.findings.len() < 2000 {
                 self.findings.push(Case {
                     hist: h.clone(),
                     finding: f,
